@@ -10,6 +10,7 @@ From Typify Require Import Base.Json Spec.Schema Spec.Valid IR.TypeIR IR.Serde C
 From Typify Require Import Proofs.SerdeProofs Proofs.ExactProofs.
 From Typify Require Algo.Heck Algo.Sanitize.
 From Typify Require Import Algo.Convert Proofs.ConvertProofs Proofs.ConvertShapeProofs.
+From Typify Require Proofs.ConvertIntProofs.
 Import ListNotations.
 Close Scope Q_scope.
 Close Scope string_scope.
@@ -268,7 +269,7 @@ Section ExactMain.
       + (* typed node *)
         cbn [Es].
         pose proof Hkt as Hinv. apply kind_of_type_inv in Hinv.
-        destruct Hinv as (-> & Hsv & Hlen & Henum & Hikk & Hobj & Hfmt & Hinv).
+        destruct Hinv as (_ & Hsv & Hlen & Henum & Hikk & Hobj & Hfmt & Hinv).
         assert (Hvt : forall v, type_ok false tt v = true -> valid_type serde_ints (Some l) v = true)
           by (intros v; apply valid_type_split with (nl := nl); exact Hsp).
         (* reduce to the non-null part *)
@@ -446,18 +447,12 @@ Proof.
   apply convert_exact with (cls := cls); assumption.
 Qed.
 
-(* integer formats: the chosen Rust type has exactly the range of the format *)
+(* integer formats: the Rust type of a row of convert_integer's table has exactly the range of the format *)
 Lemma int_format_range_exact :
-  forall f r, assoc f int_format_type = Some r ->
-    exists lo hi nz, int_range_u r = Some (lo, hi, nz) /\ int_format_range f = Some (lo, hi).
+  forall r, In r int_rows ->
+    exists hi nz, int_range_u (ir_ty r) = Some (ir_lo r, hi, nz) /\
+                  int_format_range (ir_fmt r) = Some (ir_lo r, hi).
 Proof.
-  assert (H : forallb (fun p => match int_range_u (snd p), int_format_range (fst p) with
-                                | Some (lo, hi, _), Some (lo', hi') => Z.eqb lo lo' && Z.eqb hi hi'
-                                | _, _ => false end) int_format_type = true) by (vm_compute; reflexivity).
-  intros f r Hf. rewrite forallb_forall in H.
-  pose proof (H (f, r) (assoc_In _ _ _ Hf)) as Hp. cbn [fst snd] in Hp.
-  destruct (int_range_u r) as [[[lo hi] nz]|]; [|discriminate].
-  destruct (int_format_range f) as [[lo' hi']|]; [|discriminate].
-  apply andb_true_iff in Hp. destruct Hp as [H1 H2]. apply Z.eqb_eq in H1. apply Z.eqb_eq in H2. subst.
-  exists lo', hi', nz. split; reflexivity.
+  intros r Hr. destruct (ConvertIntProofs.row_facts r Hr) as (thi & nz & _ & _ & H1 & _ & _ & _ & _ & H3).
+  exists thi, nz. split; assumption.
 Qed.
